@@ -54,7 +54,8 @@ class C05(object):
                    'comments (free-text descriptions) are not scanned for placeholders']
     required_counters = ('models.judged', 'lhs.judged', 'rhs_names.judged', 'meaning.judged', 'embedded.judged',
                          'embedded.in_global_equation', 'placeholders.handed_out', 'embedded.form.term_product',
-                         'embedded.form.term_ratio', 'embedded.form.string_rhs', 'late_sector.declared')
+                         'embedded.form.term_ratio', 'embedded.form.string_rhs', 'late_sector.declared',
+                         'codes_generated_mid_construction')
 
     def n_cases(self, tier):
         return 32 if tier == 'quick' else 1200
@@ -63,14 +64,18 @@ class C05(object):
         nz = rng.choice([1, 1, 2, 2, 3])
         spec = M.gen_spec(rng, n_zones=nz, maxtime=2)
         return {'kind': 'closure', 'spec': spec, 'eseed': rng.getrandbits(30), 'n_embed': rng.randint(1, 6),
-                'early_full_codes': rng.random() < 0.3, 'solve': idx % 4 == 0}
+                'early_full_codes': rng.random() < 0.3, 'solve': idx % 4 == 0,
+                'codes_after_first_country': nz > 1 and rng.random() < 0.5}
 
     def run_case(self, case):
         rec = monitors.Recorder()
         spec = case['spec']
         shape = M.shape_of(spec)
         rng = random.Random(case['eseed'])
-        b = M.build(spec, solve=False)
+        b = M.build(spec, solve=False, codes_after_first_country=case.get('codes_after_first_country', False),
+                    ext_first=not case.get('codes_after_first_country', False))
+        if case.get('codes_after_first_country'):
+            rec.count('codes_generated_mid_construction')
         if b.error is not None:
             return {'verdict': 'notjudged', 'shape': shape + '|construction:' + type(b.error).__name__}
         mod = b.model
